@@ -274,7 +274,7 @@ func opEcDec(a []string) string {
 	content := []byte("content")
 	res := v.Verify(content, sig)
 	n := (curve.Params().N.BitLen() + 7) / 8
-	out := "res=" + errClass(res)
+	out := "sigres=" + errClass(res)
 	if len(sig) == 2*n {
 		dg := hashFor(alg, content)
 		ok := ecdsa.Verify(&key.PublicKey, dg, new(big.Int).SetBytes(sig[:n]), new(big.Int).SetBytes(sig[n:]))
